@@ -1,6 +1,7 @@
 """Engine `Proto`: modules/iauth_core.c + iauth_xquery.c + iauth_class.c + iauth_misc.c
 <-> lean/Iauthd/Proto  (properties C01-C11, C17)."""
 import os
+import random
 import re
 import subprocess
 from . import core
@@ -277,6 +278,7 @@ class Cfg:
         self.xq_objects = xq_objects or []  # names of object children under iauth_xquery
         self.cls_strings = cls_strings or []  # [(name, value)] string children under iauth_class
         self.logs = logs or []              # [(key, dest)]
+        self.drop_empty = False             # write no header at all for a section without entries
 
     def text(self):
         t = []
@@ -286,21 +288,25 @@ class Cfg:
                 t.append(" %s %s;" % (conf_str(k), conf_str(d)))
             t.append("}")
         t.append("iauth {\n timeout %d;\n}" % self.timeout)
-        t.append("iauth_xquery {")
-        for n, v in self.services:
-            t.append(" %s %s;" % (conf_str(n), conf_str(v)))
-        for n in self.xq_objects:
-            t.append(" %s {\n }" % conf_str(n))
-        t.append("}")
-        t.append("iauth_class {")
-        for n, v in self.cls_strings:
-            t.append(" %s %s;" % (conf_str(n), conf_str(v)))
-        for n, kv in self.rules:
-            t.append(" %s {" % conf_str(n))
-            for k, v in kv:
-                t.append("  %s %s;" % (k, conf_str(v)))
-            t.append(" }")
-        t.append("}")
+        # a section the file does not mention at all is an empty section (seeded change C17-3 kept
+        # the old children of a section whose header disappeared)
+        if not (self.drop_empty and not self.services and not self.xq_objects):
+            t.append("iauth_xquery {")
+            for n, v in self.services:
+                t.append(" %s %s;" % (conf_str(n), conf_str(v)))
+            for n in self.xq_objects:
+                t.append(" %s {\n }" % conf_str(n))
+            t.append("}")
+        if not (self.drop_empty and not self.cls_strings and not self.rules):
+            t.append("iauth_class {")
+            for n, v in self.cls_strings:
+                t.append(" %s %s;" % (conf_str(n), conf_str(v)))
+            for n, kv in self.rules:
+                t.append(" %s {" % conf_str(n))
+                for k, v in kv:
+                    t.append("  %s %s;" % (k, conf_str(v)))
+                t.append(" }")
+            t.append("}")
         return "\n".join(t) + "\n"
 
     def fields(self):
@@ -445,6 +451,18 @@ def client_script(rng, cid, cfg, mods):
     if rng.random() < 0.15:
         items.append(rng.choice(items) if items else ("line", "d"))
     rng.shuffle(items)
+    # the server reports a field a second time with another, often shorter, value: the later
+    # report replaces the earlier one completely (seeded change C06-3 kept the old tail)
+    for it in list(items):
+        if it[0] == "line" and it[1][:2] in ("n ", "u ", "N ", "U ") and rng.random() < 0.2:
+            letter, rest = it[1][0], it[1][2:]
+            if letter == "U":
+                u, _, real = rest.partition(" :")
+                again = "U %s :%s" % (rng.choice([u[:max(1, len(u) // 2)], "u2", u + "x"])[:200] or "u",
+                                      rng.choice([real[:len(real) // 2], "r", real + " more"]))
+            else:
+                again = "%s %s" % (letter, rng.choice([rest[:max(1, len(rest) // 2)], "zz", rest + "x"]) or "z")
+            items.insert(rng.randint(items.index(it) + 1, len(items)), ("line", again))
     ev += items
     if rng.random() < 0.25:
         ev.insert(rng.randint(1, len(ev)), ("line", "H"))
@@ -456,7 +474,7 @@ def client_script(rng, cid, cfg, mods):
         kind = "x" if rng.random() < 0.12 else "X"
         tagmode = rng.choice(["cur"] * 8 + ["stale", "plus1", "wrap", "garbage", "nosep", "upper"])
         pos = rng.randint(1, len(ev)) if rng.random() < 0.4 else len(ev)
-        ev.insert(pos, ("reply", kind, svc, rng.choice(REPLIES), tagmode))
+        ev.insert(pos, ("reply", kind, svc, None if rng.random() < 0.06 else rng.choice(REPLIES), tagmode))
         if rng.random() < 0.2:
             ev.insert(min(len(ev), pos + 1), ("line", "P :" + rng.choice(["response text", "+x acct pass"])))
     if cfg.timeout and rng.random() < 0.35:
@@ -554,7 +572,12 @@ def render_schedule(rng, scripts, chunks=False):
                 tag = "%s%x" % (idh, s)
             else:
                 tag = ("%s_%x" % (idh, s)).upper()
-            ops.append(inl("-1 %s %s %s :%s" % (kind, svc, tag, text)))
+            if text is None:
+                # a reply cut short: service and tag but no text parameter (seeded change C08-3
+                # took the missing parameter for the "unlinked" sentinel)
+                ops.append(inl("-1 %s %s %s%s" % (kind, svc, tag, rng.choice(["", " ", "  "]))))
+            else:
+                ops.append(inl("-1 %s %s %s :%s" % (kind, svc, tag, text)))
     return ops
 
 
@@ -733,6 +756,11 @@ def stray_replies(rng, ops, p, cfg):
         else:
             tag, svc = "%s_%x" % (idh, cur.get(cid, 0) + 1), rng.choice(names)
         out.append("-1 %s %s %s :%s" % (kind, svc or "x", tag, rng.choice(texts)))
+    if cur:
+        # a reply without its text parameter, otherwise perfectly addressed: malformed, to be ignored
+        cid = rng.choice(list(cur))
+        out.append("-1 X %s %s%s" % (rng.choice(names), sym_tag(cid, ords.get(cur[cid], (cid, 0))[1], "%x_%x" % (cid & 0xffffffff, cur[cid])),
+                                     rng.choice(["", " "])))
     return out
 
 
@@ -747,7 +775,7 @@ HOST_PATS = ["*", "*.example", "host.example", "host.exampl", "host.example.", "
 IDENTS = ["ident", "iden", "identx", "~ident", "IDENT"]
 IDENT_PATS = ["*", "ident", "iden", "identx", "~*", "id*", "IDENT", "?dent"]
 CADDRS = ["1.2.3.4", "1.2.3.5", "1.2.255.255", "1.3.0.0", "10.0.0.1", "0::102:304", "0::ffff:1.2.3.4", "2001:db8::1", "2001:db9::1", "0::1"]
-ADDR_PATS = ["1.2.3.4/32", "1.2.3.4", "1.2.0.0/16", "1.2.3.0/24", "1.2.3.4/31", "1.*", "1.2.*", "10.*", "2001:db8::/32", "2001:db8::/31",
+ADDR_PATS = ["0.0.0.0/0", "0.0.0.0/1", "0::/8", "0::/0", "0::/96", "0::ffff:0.0.0.0/96", "0.0.0.0/8", "0.*", "1.2.3.4/32", "1.2.3.4", "1.2.0.0/16", "1.2.3.0/24", "1.2.3.4/31", "1.*", "1.2.*", "10.*", "2001:db8::/32", "2001:db8::/31",
              "2001:db8:*", "*", "0::/0", "9.9.9.9", "bogus/99", "0::ffff:1.2.3.4/128", "0::102:304"]
 
 
@@ -824,6 +852,44 @@ def reuse_scenario(rng, name):
         ev.append(("reply", "X", "drone.srv", "OK", "cur"))
     ev.append(("line", "H"))
     ops = header(mods, cfg) + render_schedule(rng, {cid: ev}) + [inl("-1 ? :stats"), "eof"]
+    return Case(name, ops, tags={"mods": mods})
+
+
+def midflight_reload_scenario(rng, name, with_stray=True):
+    """a reload that removes / renames / retypes services while clients still wait for their
+    answers; afterwards a service that was never asked about a client answers with that client's
+    tag (stray), and the removed service answers late (legitimate: it still owes the answer)"""
+    mods = rng.choice(["xquery", "class"])
+    a_type = rng.choice(["login", "login-ipr", "combined", "dronecheck"])
+    old = [("a.srv", a_type)]
+    if rng.random() < 0.4:
+        old.append(("keep.srv", rng.choice(["login", "dronecheck"])))
+    rules = [("a", [("class", "cls-a")])] if mods == "class" else []
+    cfg = Cfg(timeout=rng.choice([0, 0, 30]), services=old, rules=rules)
+    new_services = [s for s in old if s[0] != "a.srv"]
+    r = rng.random()
+    if r < 0.6:
+        new_services.insert(0, ("b.srv", rng.choice(["login", "login-ipr", "combined", "dronecheck"])))   # renamed
+    elif r < 0.8:
+        new_services += [("b.srv", "login"), ("c.srv", "dronecheck")]
+    new = Cfg(timeout=cfg.timeout, services=new_services, rules=rules)
+    cid = rng.choice([1, 5, 7, 300])
+    data = [("line", "N host.example"), ("line", "u ident"), ("line", "n nick"), ("line", "U user :real name")]
+    rng.shuffle(data)
+    ev = [("C", rng.choice(["10.0.0.1", "2001:db8::1"]), "4000")] + data + [("line", "P :+x alice pw")]
+    if rng.random() < 0.3:
+        rng.shuffle(ev[1:])
+    ops = header(mods, cfg) + render_schedule(rng, {cid: ev})
+    ops.append(new.op("reload"))
+    tag = sym_tag(cid, 1, "%x_1" % (cid & 0xffffffff))
+    if with_stray and any(n == "b.srv" for n, _ in new_services):
+        ops.append(inl("-1 %s b.srv %s :%s" % (rng.choice(["X", "X", "x"]), tag,
+                                               rng.choice(["NO banned by b", "OK mallory:1234", "MORE prove", "AGAIN later", "OK"]))))
+    if rng.random() < 0.7:
+        ops.append(inl("-1 X a.srv %s :%s" % (tag, rng.choice(["OK alice", "OK", "NO bad password", "AGAIN x"]))))
+    if rng.random() < 0.5:
+        ops.append(inl("-1 X keep.srv %s :OK" % tag))
+    ops += [inl("%d H" % cid), inl("-1 ? :config"), inl("-1 ? :stats"), "eof"]
     return Case(name, ops, tags={"mods": mods})
 
 
@@ -913,7 +979,20 @@ def gen_cases(prop, tier, seed):
     if prop == "C04":
         n = 250 if quick else 6000
         for i in range(n):
-            if i % 5 == 4:
+            if i % 10 == 7:
+                # a reload while an answer is outstanding, then an answer from a service that was
+                # never asked (seeded change C04-3: the newcomer took the departed service's slot)
+                sub = random.Random(rng.getrandbits(32))
+                base = midflight_reload_scenario(sub, "c04/%d/base" % i)
+                body0 = base.body()
+                lat = [q for q, l in enumerate(body0) if l.startswith("in ") and b" b.srv " in unhx(l.split(" ")[1])
+                       and unhx(l.split(" ")[1]).startswith(b"-1 ")]
+                if lat:
+                    q = lat[0]
+                    cases.append(Case("c04/%d/unasked" % i, body0, tags={"group": "c04/%d" % i, "role": "variant", "pos": q,
+                                                                          "mods": base.tags["mods"]}))
+                    base = Case(base.name, body0[:q] + body0[q + 1:], tags=dict(base.tags))
+            elif i % 5 == 4:
                 base = reuse_scenario(rng, "c04/%d/base" % i)
                 # the late answer is the stray line of this pair: base = the history without it
                 body0 = base.body()
@@ -950,6 +1029,8 @@ def gen_cases(prop, tier, seed):
                 # ignored by the daemon and leaves the service owing its answer
                 if t[1] == b"X" and not (first == b"OK" or first.startswith((b"OK ", b"NO ", b"AGAIN ", b"MORE "))):
                     continue
+                if len([x for x in t if x]) < 5:
+                    continue      # no text parameter at all: the line is dropped by the argument count check
                 for j, text in enumerate(rng.sample(["OK", "OK other:7", "NO second opinion", "AGAIN again", "MORE more"], 2)):
                     dup = b" ".join(t[:4]) + b" :" + text.encode()
                     lines = body[:q + 1] + ["in " + hx(dup + b"\n")] + body[q + 1:]
@@ -1089,6 +1170,8 @@ def gen_cases(prop, tier, seed):
             cases.append(challenge_scenario(rng, "chl/%d" % i))
         elif prop in ("C01", "C02", "C04", "C05", "C10") and i % 10 == 6:
             cases.append(reuse_scenario(rng, "reuse/%d" % i))
+        elif prop in ("C01", "C02", "C03", "C05", "C10", "C17") and i % 10 == 8:
+            cases.append(midflight_reload_scenario(rng, "midflight/%d" % i))
         elif prop in ("C01", "C02", "C03", "C05", "C09", "C10") and i % 10 == 3:
             # rule tables with trust_username against '~' idents: the class module calls back into
             # the core from inside iauth_accept (seeded change C01-2)
@@ -1102,6 +1185,12 @@ def mutate_cfg(rng, cfg, mods):
     """a related configuration: add / remove / change entries in place"""
     services = list(cfg.services)
     rules = [(n, list(kv)) for n, kv in cfg.rules]
+    if rng.random() < 0.12:
+        # a whole section disappears from the file (header and all), or is emptied
+        out = Cfg(timeout=cfg.timeout, services=[] if rng.random() < 0.6 else services,
+                  rules=[] if (mods == "class" and rng.random() < 0.7) else rules)
+        out.drop_empty = rng.random() < 0.75
+        return out
     for _ in range(rng.choice([1, 1, 2, 3])):
         r = rng.random()
         if r < 0.2 and services:
